@@ -240,7 +240,21 @@ func (chkC16) CheckTrans(t *TransCtx) (out []Viol) {
 	}
 	for k, p := range t.Post.Audits {
 		q, existed := t.Pre.Audits[k]
-		if !existed || !pbEq(&p, &q) {
+		// created or updated = the record is new or gained / replaced an attribute; a record that only lost
+		// attributes was changed by a delete request, whose corresponding event is the "deleted" one (not demanded here)
+		grew := !existed
+		for _, a := range p.Attributes {
+			found := false
+			for _, b := range q.Attributes {
+				if a.Key == b.Key && a.Value == b.Value {
+					found = true
+				}
+			}
+			if !found {
+				grew = true
+			}
+		}
+		if grew {
 			o, _ := sdk.AccAddressFromBech32(p.Owner)
 			a, _ := sdk.AccAddressFromBech32(p.Auditor)
 			atLeastOnce[evKey(atypes.NewEventTrustedAuditorCreated(o, a))] = "attestation created or updated"
